@@ -8,11 +8,20 @@ import numpy as np
 import lib
 import lasgen
 import readmodel as rm
+from props import c08
 
 PROP = "C06"
 MODEL_TARGETS = ["Corr/ReadShow.vo"]
-THEOREMS = ["C06_iff", "C06_iff_cellwise", "C06_index_kept", "C06_text_untouched", "C06_none_policy", "C06_columnwise", "C06_length", "C06_null_bind_current"]
+THEOREMS = ["C06_iff", "C06_iff_cellwise", "C06_index_kept", "C06_text_untouched", "C06_none_policy", "C06_columnwise", "C06_length", "C06_null_bind_current",
+            "C06_read_null", "C06_read_cell_iff", "C06_nulleq_numeric", "C06_null_not_numeric", "C06_read_null_not_numeric"]
 ASSUMPTIONS = [
+    "the ~Well NULL value is a number exactly when its text is a plain decimal literal ('.' or ',' as the mark; C08): a file without "
+    "a NULL item or with a textual NULL ('N/A') has no NULL value and no sample of it becomes NaN",
+    "a ~Well section with two NULL items has no single NULL value; lasio then nulls nothing.  The reading-independent part is always checked (a sample equal to neither value stays, "
+    "policy 'none' changes nothing, index and text columns untouched); 'both items numerically equal => samples equal to it become "
+    "NaN' is checked only under NULL_TWICE_STRICT (lasio applies no NULL at all there; reported to main)",
+    "a file whose INDEX column is text is judged on the read clauses; write() of such an object raises TypeError "
+    "(STRT/STOP/STEP are computed from a numeric index), the write->read cycle is attempted for it only under TEXT_INDEX_WRITE",
     "numeric equality of a sample and NULL is IEEE == on the doubles CPython assigns to the two texts (oracle numeq)",
     "on writing, NaN -> str(NULL) is the writer's rule (C01/C16 model); the write->read cycle is checked on the implementation",
 ]
@@ -24,6 +33,20 @@ NULLS = [("-999.25", ["-999.25", "-999.2500", "-9.9925E2", "-99925e-2"]),
          ("1e30", ["1e30", "1E+30", "1000000000000000000000000000000"]),
          ("-9.9925E2", ["-999.25", "-9.9925E2"]),
          ("9999.25", ["9999.25", "9999.250"])]
+
+
+TEXT_NULLS = ["N/A", "null", "-", "15_9", "1e", "NONE", "-999.25.0"]
+COMMA_NULLS = [("-999,25", "-999.25"), ("0,0", "0"), ("-9999,0", "-9999"), ("999,0", "999")]
+NULL_TWICE_STRICT = False       # see ASSUMPTIONS; messages carry the prefix "NULL item twice:"
+TEXT_INDEX_WRITE = False        # see ASSUMPTIONS; messages carry the prefix "text index:"
+
+
+def null_number(text):
+    """the number a NULL item's text denotes, or None (no item / not a plain decimal literal)"""
+    if text is None:
+        return None
+    k = c08.expected_by_statement(text)
+    return float(k[1]) if k[0] in ("int", "float") else None
 
 
 def nextafter(x, up):
@@ -38,10 +61,31 @@ def gen_case(rng):
     nc = rng.randint(1, 5)
     nr = rng.choice([1, 2, 4, 8])
     text_col = rng.choice([None, None, None] + list(range(1, nc))) if nc > 1 else None
+    if nc > 1 and rng.random() < 0.08:
+        text_col = 0                                                    # a text column as the index
     ndecl = nc if rng.random() < 0.75 else rng.randint(0, nc - 1)       # surplus columns become unnamed curves: NULL applies to them too
     s.curves = [("C%d" % j if j else "DEPT", "", "", "") for j in range(ndecl)]
     s.null = null
     s.well = [("STRT", "M", "1.0", "START"), ("STOP", "M", "2.0", "STOP"), ("STEP", "M", "0.5", "STEP")]
+    # how the file states its NULL: a number (as before) | no NULL item | text | decimal comma | two NULL items
+    mode = rng.choice(["num"] * 7 + ["none", "none", "text", "text", "comma", "twice", "twice"])
+    s._null2 = None
+    if mode == "none":
+        s.null = None
+    elif mode == "text":
+        s.null = rng.choice(TEXT_NULLS)
+    elif mode == "comma":
+        s.null, null = rng.choice(COMMA_NULLS)
+        spellings = [sp for n_, sp in NULLS if n_ == null][0]
+        nv = float(null)
+    elif mode == "twice":
+        other, osp = rng.choice(NULLS)
+        s._null2 = rng.choice([null, rng.choice(spellings), other, other])
+        if float(s._null2) != nv:
+            spellings = spellings + osp[:2]
+        pos = rng.randint(0, len(s.well))
+        s.well = s.well[:pos] + [("NULL", "", s._null2, "second NULL item")] + s.well[pos:]
+    s._mode = mode
     rows = []
     for i in range(nr):
         row = []
@@ -59,6 +103,8 @@ def gen_case(rng):
         rows.append(row)
     s.rows = rows
     s.wrap = "YES" if rng.random() < 0.25 else "NO"
+    if s.wrap == "NO":
+        s.dlm = rng.choice([None, None, None, None, "SPACE", "COMMA", "COMMA", "TAB"])
     if s.wrap == "YES":
         # a wrapped file must declare all its curves (a depth step is "declared count" values)
         s.curves = [("C%d" % j if j else "DEPT", "", "", "") for j in range(nc)]
@@ -96,7 +142,9 @@ def oracle(s, text, engine, policy):
         las = lasio.read(text, engine=engine, null_policy=policy)
     except Exception as e:
         return "read raised %s: %s" % (type(e).__name__, str(e)[-100:])
-    nv = float(s.null)
+    nv = null_number(s.null)              # None: the file has no (numeric) NULL value
+    nv2 = null_number(getattr(s, "_null2", None))
+    twice = getattr(s, "_null2", None) is not None
     nr, nc = len(s.rows), len(s.rows[0])
     if len(las.curves) != nc:
         return "curve count %d != %d" % (len(las.curves), nc)
@@ -115,7 +163,17 @@ def oracle(s, text, engine, policy):
                     return "text column cell (%d,%d) became NaN" % (i, j)
                 continue
             e = vals[i]
-            should_nan = policy == "strict" and j >= 1 and e == nv
+            should_nan = policy == "strict" and j >= 1 and nv is not None and e == nv
+            if twice:
+                # two NULL items: a sample equal to neither value stays; with both items numerically equal (strong reading,
+                # NULL_TWICE_STRICT) the samples equal to it become NaN
+                if policy == "strict" and j >= 1 and (e == nv or e == nv2) and nv is not None:
+                    if NULL_TWICE_STRICT and nv == nv2 and not (isinstance(g, float) and math.isnan(g)):
+                        return "NULL item twice: cell (%d,%d) token %r equals both NULL items (%r, %r) but came back %r" % (
+                            i, j, toks[i], s.null, s._null2, g)
+                    if isinstance(g, float) and (math.isnan(g) or g == e):
+                        continue
+                should_nan = False
             if should_nan:
                 if not (isinstance(g, float) and math.isnan(g)):
                     return "cell (%d,%d) token %r equals NULL %r but came back %r (policy %s)" % (i, j, toks[i], s.null, g, policy)
@@ -123,7 +181,13 @@ def oracle(s, text, engine, policy):
                 if not (isinstance(g, float) and (g == e) and not math.isnan(g)):
                     return "cell (%d,%d) token %r (NULL %r, policy %s) came back %r, expected %r" % (i, j, toks[i], s.null, policy, g, e)
     # write -> read keeps the NaN positions
-    if policy == "strict":
+    index_is_text = any(tofloat(s.rows[i][0]) is None for i in range(nr))
+    if policy == "strict" and index_is_text and TEXT_INDEX_WRITE:
+        try:
+            las.write(io.StringIO(), version=2.0)
+        except Exception as e:
+            return "text index: write raised %s: %s" % (type(e).__name__, str(e)[-100:])
+    if policy == "strict" and not index_is_text:
         try:
             buf = io.StringIO()
             las.write(buf, version=2.0)
@@ -131,7 +195,7 @@ def oracle(s, text, engine, policy):
             # a finite sample whose printed text is numerically the NULL value IS the null marker on
             # disk (inherent to a finite-precision format): such cells may come back NaN or not
             def printed_null(x, j):
-                return j >= 1 and isinstance(x, float) and not math.isnan(x) and float("%.5f" % x) == nv
+                return j >= 1 and isinstance(x, float) and not math.isnan(x) and float("%.5f" % x) in (nv, nv2)
             for j, (c1, c2) in enumerate(zip(las.curves, las2.curves)):
                 for i, (x, y) in enumerate(zip(c1.data, c2.data)):
                     if printed_null(x, j):
@@ -145,6 +209,8 @@ def oracle(s, text, engine, policy):
             toks = [t for ln in body for t in ln.split()]
             if any(t.lower() in ("nan", "-nan") for t in toks):
                 return "a NaN sample was written as the text %r instead of the NULL value %s" % ("nan", s.null)
+            if nv is None and any(isinstance(y, float) and math.isnan(y) for c2 in las2.curves for y in c2.data):
+                return "a file without a numeric NULL value has NaN samples after write->read"
         except Exception as e:
             return "write->read raised %s: %s" % (type(e).__name__, str(e)[-100:])
     return None
@@ -155,7 +221,9 @@ def run(ctx):
     rng = ctx.rng
     n = 4000 if ctx.thorough else 300
     cases, meta, kinds = [], [], set()
-    hist = {"wrapped": 0, "text_column": 0, "null_in_index": 0, "null_cells": 0, "near_null_cells": 0}
+    hist = {"wrapped": 0, "text_column": 0, "null_in_index": 0, "null_cells": 0, "near_null_cells": 0,
+            "no_null_item": 0, "null_is_text": 0, "null_decimal_comma": 0, "null_item_twice": 0, "null_item_twice_same_value": 0,
+            "dlm_comma": 0, "dlm_tab": 0, "text_index": 0}
     for _ in range(n):
         s = gen_case(rng)
         text = render(s, rng)
@@ -164,17 +232,26 @@ def run(ctx):
                 bad = oracle(s, text, e, pol)
                 if bad:
                     res.oracle_violations.append({"payload": {"text": text, "engine": e, "policy": pol, "null": s.null,
-                                                              "rows": s.rows}, "what": bad})
+                                                              "null2": s._null2, "rows": s.rows}, "what": bad})
                 exp, las = rm.impl_read(text, engine=e, null_policy=pol)
                 cases.append(rm.coq_case(text, exp, engine=e, null_policy=pol))
                 meta.append((text, e, pol))
-        nv = float(s.null)
-        nulls = sum(1 for row in s.rows for t in row if tofloat(t) == nv)
-        kinds.add((s.null, s.wrap, s._text_col is not None, min(nulls, 3), tofloat(s.rows[0][0]) == nv))
+        nv = null_number(s.null)
+        nulls = sum(1 for row in s.rows for t in row if nv is not None and tofloat(t) == nv)
+        kinds.add((s.null, s._null2, s.dlm, s.wrap, s._text_col is not None, s._text_col == 0, min(nulls, 3),
+                   nv is not None and tofloat(s.rows[0][0]) == nv))
         hist["wrapped"] += s.wrap == "YES"
         hist["text_column"] += s._text_col is not None
-        hist["null_in_index"] += any(tofloat(row[0]) == nv for row in s.rows)
+        hist["null_in_index"] += any(nv is not None and tofloat(row[0]) == nv for row in s.rows)
         hist["null_cells"] += nulls
+        hist["no_null_item"] += s._mode == "none"
+        hist["null_is_text"] += s._mode == "text"
+        hist["null_decimal_comma"] += s._mode == "comma"
+        hist["null_item_twice"] += s._mode == "twice"
+        hist["null_item_twice_same_value"] += s._mode == "twice" and null_number(s._null2) == nv
+        hist["dlm_comma"] += s.dlm == "COMMA"
+        hist["dlm_tab"] += s.dlm == "TAB"
+        hist["text_index"] += s._text_col == 0
     if ctx.build.model_ok:
         mism, err = lib.run_coq_cases("c06", [], rm.RUN_READ, cases, shard=150)
         res.corr_error = err
@@ -184,7 +261,9 @@ def run(ctx):
         res.corr_error = "model not built"
     res.cases = len(cases)
     res.distinct_nontrivial = len(kinds)
-    res.rule = ("files whose NULL is one of {-999.25,-9999,0,999,1e30,-9.9925E2,9999.25}; cells are NULL in several spellings, "
+    res.rule = ("files whose NULL is one of {-999.25,-9999,0,999,1e30,-9.9925E2,9999.25}, or absent, textual (N/A, ...), spelled with a "
+                "decimal comma (-999,25) or given by TWO NULL items; data blank-, COMMA- or TAB-delimited; optional text column, also "
+                "as the index; cells are NULL in several spellings, "
                 "near-NULL (+-1 ulp, +-1e-6, sign flipped) or ordinary numbers, in every column incl. the index, optional text "
                 "column, wrapped and unwrapped, both engines x {strict, none}; then write->read of the result; non-trivial = "
                 "distinct (NULL, wrap, text column?, #NULL cells (capped), NULL in index?)")
@@ -196,6 +275,7 @@ def run(ctx):
 def replay(payload):
     s = lasgen.Spec()
     s.null = payload["null"]
+    s._null2 = payload.get("null2")
     s.rows = payload["rows"]
     bad = oracle(s, payload["text"], payload["engine"], payload["policy"])
     return bad is not None, bad or "ok"
@@ -211,5 +291,6 @@ def search(ctx, res):
             for pol in ("strict", "none"):
                 bad = oracle(s, text, e, pol)
                 if bad:
-                    yield {"payload": {"text": text, "engine": e, "policy": pol, "null": s.null, "rows": s.rows}, "what": bad}
+                    yield {"payload": {"text": text, "engine": e, "policy": pol, "null": s.null, "null2": s._null2, "rows": s.rows},
+                           "what": bad}
                     return
